@@ -399,6 +399,23 @@ fn nat_canonical<const NB: usize>(k: usize) -> u8 {
         i += 1;
     }
     kani::assume(!refbit(&data, k));
+    // contract used by C02 (k02_decode_node_total): with a bound, Ok(n) implies 1 <= n <= bound,
+    // and the bound only ever turns an Ok into BadIndex
+    {
+        let bound: u32 = kani::any();
+        let mut itb = BitIter::from(&data[..]);
+        let rb = itb.read_natural::<u32>(Some(bound));
+        let mut itn = BitIter::from(&data[..]);
+        let rn = itn.read_natural::<u32>(None);
+        match (&rb, &rn) {
+            (Ok(a), Ok(b)) => assert!(*a == *b && *a >= 1 && *a <= bound, "bounded decode accepted a number above its bound"),
+            (Err(DecodeNaturalError::BadIndex { got, max }), Ok(b)) => {
+                assert!(*b > bound && *got == *b as usize && *max == bound as usize, "BadIndex for a number within the bound")
+            }
+            (Err(_), Err(_)) => {}
+            _ => panic!("a bound changed the outcome in an unexpected way"),
+        }
+    }
     let mut it = BitIter::from(&data[..]);
     match it.read_natural::<u32>(None) {
         Ok(n) => {
